@@ -29,6 +29,7 @@ type Env struct {
 	prevLoop *loopInfo   // in step clauses: the loop whose head state prev(e) refers to
 	callee map[string]bool // at call sites: names of the callee's parameters (they shadow the caller's locals)
 	inOld  bool
+	localsFallback bool // check clauses at a return: names that are neither parameters nor results are locals
 }
 
 func (e *Env) withState(cur, old *State) *Env {
@@ -347,6 +348,11 @@ func (f *fx) tryIdent(name string, env *Env) (TV, bool) {
 	}
 	if v, ok := env.vars[name]; ok {
 		return v, true
+	}
+	if env.localsFallback && !env.inOld && env.f != nil {
+		if v, ok := env.f.lookupLocal(name, env.cur); ok {
+			return v, true
+		}
 	}
 	return TV{}, false
 }
